@@ -202,7 +202,7 @@ macro "c05_eval" "[" hs:Lean.Parser.Tactic.simpLemma,* "]" "at" h:ident : tactic
     Model.settleAfterDelete, Model.withLive, Model.destroy, Cfg.setters, MRec.abs,
     Model.deleteRec, Model.delLoop, Model.idxRemove, Model.idxAdd,
     Val.scalar, Val.isSlice, Val.sliceD, Model.incStep, Model.incCore, Model.incStart, Model.incApply,
-    Model.park, Model.applyIncMeta, numIsZero, numZero, numVal, numOf, numAdd, numCmp, condHolds, metaResp, loadRec,
+    Model.park, Model.applyIncMeta, numIsZero, numZero, numVal, numOf, numAdd, numCmp, numWrap, IntTy.bits, IntTy.signed, condHolds, metaResp, loadRec,
     Model.closeStep, Model.closeDisk, Model.flushDisk, Model.flushStep, Model.addWaiting, persistRec, persistContent,
     Val.zeroLike, IntTy.wrap, kA, kB, hRes, hFail] at $h:ident)
 
@@ -239,6 +239,7 @@ structure Facts where
   arekAllFalse : Tri
   countMissingOk : Tri
   setErrSingle : Tri
+  fltCondDirect : Tri
   saveReleasesImmediate : Tri
   wireExpNe0 : Tri
   deriving DecidableEq, Repr
@@ -246,7 +247,7 @@ structure Facts where
 def kvFacts (f : Facts) : Hv.C06.Facts :=
   ⟨f.resetsFlags, f.metaCompare, f.tsPositive, f.voidClears, f.pushChecksType, f.setSliceReplaces,
    f.u32delReleases, f.u32delChecksType, f.incFailClean, f.noEmptyLive, f.arekAllFalse, f.countMissingOk,
-   f.setErrSingle, f.saveReleasesImmediate, f.wireExpNe0⟩
+   f.setErrSingle, f.fltCondDirect, f.saveReleasesImmediate, f.wireExpNe0⟩
 
 def cfgOf (f : Facts) : Cfg :=
   { Hv.C06.cfgOf (kvFacts f) with encoding := match f.encoding with | .typeTagged => .typeTagged | _ => .gobOmitZero }
